@@ -606,11 +606,47 @@ impl Sim {
                     self.emit(json!({"ev":"sup","node":name,"msg":m,"panic":false,"dead":true}));
                     return Ok(());
                 }
+                // the catch-up builder: its inputs are recorded before the call (raw operation log read
+                // from the files, identifier maps, databases), its output (the lines put on the joining
+                // node's connection) after it
+                let mut catchup: Option<(String, u64, J, usize, Option<bool>)> = None;
+                if let Some(rest) = m.strip_prefix("replicate-since-to ") {
+                    let mut p = rest.splitn(2, ' ');
+                    let target = p.next().unwrap_or("").to_string();
+                    let since: u64 = p.next().unwrap_or("0").trim().parse().unwrap_or(0);
+                    self.collect();
+                    let before = self.links.iter().rev().find(|l| l.from == self.nodes[i].name && l.to == target)
+                        .map(|l| l.handshake.len() + l.req.len()).unwrap_or(0);
+                    let dir = self.nodes[i].node.dir.clone();
+                    let oplog: Vec<J> = crate::ids::read_records(&dir).iter()
+                        .map(|(t, k, d, o)| json!({"t": t, "k": k, "d": d, "op": o})).collect();
+                    let dbs = &self.nodes[i].node.dbs;
+                    let mut idk: Vec<(u64, String)> = dbs.id_keys_map.read().map(|m| m.iter().map(|(a, b)| (*a, b.clone())).collect()).unwrap_or_default();
+                    let mut idd: Vec<(u64, String)> = dbs.id_name_db_map.read().map(|m| m.iter().map(|(a, b)| (*a, b.clone())).collect()).unwrap_or_default();
+                    idk.sort();
+                    idd.sort();
+                    let inputs = json!({"oplog": oplog, "idk": idk.iter().map(|(a, b)| json!([a, b])).collect::<Vec<J>>(),
+                                        "idd": idd.iter().map(|(a, b)| json!([a, b])).collect::<Vec<J>>(),
+                                        "store": self.nodes[i].node.dump()});
+                    // (read before the call: a panic inside it poisons the lock)
+                    let member = self.nodes[i].node.dbs.cluster_state.lock().ok()
+                        .and_then(|cs| cs.members.lock().ok().map(|m| m.get(&target).map(|x| x.sender.is_some())))
+                        .flatten();
+                    catchup = Some((target, since, inputs, before, member));
+                }
                 let f = &mut self.nodes[i].sup_fut;
                 let r = catch_unwind(AssertUnwindSafe(|| poll_once(f)));
                 let name = self.nodes[i].name.clone();
                 if r.is_err() {
                     self.sup_dead.insert(name.clone(), true);
+                }
+                if let Some((target, since, inputs, before, member)) = catchup {
+                    self.settle_links()?;
+                    let lines: Vec<String> = self.links.iter().rev().find(|l| l.from == name && l.to == target)
+                        .map(|l| l.handshake.iter().chain(l.req.iter()).skip(before).cloned().collect()).unwrap_or_default();
+                    self.emit(json!({"ev":"catchup","node":name,"target":target,"since":since,"inputs":inputs,
+                                     "lines":lines,"panic":r.is_err(),
+                                     "member": match member { Some(true) => "sender", Some(false) => "nosender", None => "none" }}));
                 }
                 self.emit(json!({"ev":"sup","node":name,"msg":m,"panic":r.is_err()}));
                 self.settle_links()?;
